@@ -59,7 +59,10 @@ func NewMultiHandler(create StartFunc, sessionID []byte) (*MultiHandler, error) 
 		messages:        newQueue(r.OtherPartyIDs(), r.FinalRoundNumber()),
 		broadcast:       newQueue(r.OtherPartyIDs(), r.FinalRoundNumber()),
 		broadcastHashes: map[round.Number][]byte{},
-		out:             make(chan *Message, 2*r.N()),
+		// The channel must be able to hold everything this party can emit during the whole session (at most
+		// N messages per round, plus an abort notice): finalize() can run several rounds in a row - all of
+		// them, inside this constructor, when there is no other party - while nobody is able to drain it.
+		out: make(chan *Message, (int(r.FinalRoundNumber())+1)*(r.N()+1)),
 	}
 	h.finalize()
 	return h, nil
